@@ -35,6 +35,7 @@ func (c call) String() string {
 type scenario struct {
 	cap     int
 	threads [][]call
+	prefill bool // the ring is created with an allocator: it starts full (entries 900, 901, ...)
 }
 
 func (s scenario) String() string {
@@ -46,7 +47,11 @@ func (s scenario) String() string {
 		}
 		p = append(p, strings.Join(c, ";"))
 	}
-	return fmt.Sprintf("cap=%d [%s]", s.cap, strings.Join(p, " | "))
+	pre := ""
+	if s.prefill {
+		pre = " prefilled"
+	}
+	return fmt.Sprintf("cap=%d%s [%s]", s.cap, pre, strings.Join(p, " | "))
 }
 
 // ---- sequential specification: bounded FIFO with close ----
@@ -137,9 +142,21 @@ func specStep(st qstate, in opIn, out opOut) (bool, qstate) {
 	return false, st
 }
 
-func model(capacity int) porcupine.Model {
+func initialQ(sc scenario) string {
+	if !sc.prefill {
+		return ""
+	}
+	var v []int
+	for i := 0; i < sc.cap; i++ {
+		v = append(v, 900+i)
+	}
+	return qstr(v)
+}
+
+func model(sc scenario) porcupine.Model {
+	capacity := sc.cap
 	return porcupine.Model{
-		Init: func() any { return qstate{cap: capacity} },
+		Init: func() any { return qstate{cap: capacity, q: initialQ(sc)} },
 		Step: func(state, input, output any) (bool, any) {
 			ok, ns := specStep(state.(qstate), input.(opIn), output.(opOut))
 			return ok, ns
@@ -170,7 +187,7 @@ type execResult struct {
 // branches rests on the stepwise return-order check, which implies linearizability.
 func runOnce(sc scenario, choose vsched.Chooser, seen map[string]int, devs func() int, replaying func() bool, fullKey bool) execResult {
 	var res execResult
-	spec := qstate{cap: sc.cap}
+	spec := qstate{cap: sc.cap, q: initialQ(sc)}
 	step := func(who string, in opIn, out opOut) {
 		ok, ns := specStep(spec, in, out)
 		if !ok && res.seqFail == "" {
@@ -190,7 +207,12 @@ func runOnce(sc scenario, choose vsched.Chooser, seen map[string]int, devs func(
 	var events []string // call/return event sequence (for the real-time order part of the state key)
 	nextVal := 0
 	s := vsched.Run(choose, 400, func(s *vsched.Sched) {
-		ring = ringbuf.New(sc.cap, nil, "verif")
+		if sc.prefill {
+			k := 0
+			ring = ringbuf.New(sc.cap, func() any { k++; return 899 + k }, "verif")
+		} else {
+			ring = ringbuf.New(sc.cap, nil, "verif")
+		}
 		if seen != nil {
 			s.Prune = func() bool {
 				if replaying() || res.seqFail != "" {
@@ -365,15 +387,24 @@ func scenarios() []scenario {
 		for _, a := range w {
 			for _, b := range rd {
 				for _, c := range third {
-					out = append(out, scenario{cp, [][]call{a, b, c}})
+					out = append(out, scenario{cp, [][]call{a, b, c}, false})
 				}
+			}
+		}
+		// rings created with an allocator start full: a subset of the programs on a pre-filled ring
+		for ai, a := range w {
+			for bi, b := range rd {
+				if (ai+bi)%3 != 0 && !mc.Thorough() {
+					continue
+				}
+				out = append(out, scenario{cp, [][]call{a, b, third[(ai+bi)%len(third)]}, true})
 			}
 		}
 		if mc.Thorough() {
 			for _, a := range w[:4] {
 				for _, b := range rd[:4] {
-					out = append(out, scenario{cp, [][]call{a, b, {{'C', 0, false}}, {{'R', 1, true}}}})
-					out = append(out, scenario{cp, [][]call{a, b, {{'W', 2, true}}, {{'R', 2, false}, {'C', 0, false}}}})
+					out = append(out, scenario{cp, [][]call{a, b, {{'C', 0, false}}, {{'R', 1, true}}}, false})
+					out = append(out, scenario{cp, [][]call{a, b, {{'W', 2, true}}, {{'R', 2, false}, {'C', 0, false}}}, false})
 				}
 			}
 		}
@@ -408,7 +439,7 @@ func TestC48(t *testing.T) {
 			break
 		}
 		seen := map[string]int{}
-		m := model(sc.cap)
+		m := model(sc)
 		fullKey, needFull := false, false
 		leaves := int64(0)
 		var x *mc.Ctx
